@@ -25,11 +25,19 @@ type sop struct {
 	Kind string // S store, R revert, L set L1 head, W write filter snapshot, G graceful restart, U ungraceful restart
 	Blk  *chain.Blk
 	L1   *core.L1Head
+	// Fin: the block is appended through the block-producer path (Blockchain.Finalise, as the
+	// sequencer / builder does) instead of SanityCheckNewHeight + Store. Finalise is deterministic:
+	// given a copy of the block it re-derives roots, commitments and hash and must arrive at the
+	// same block.
+	Fin bool
 }
 
 func (o sop) String() string {
 	switch o.Kind {
 	case "S":
+		if o.Fin {
+			return fmt.Sprintf("F%d", o.Blk.Number())
+		}
 		return fmt.Sprintf("S%d", o.Blk.Number())
 	case "L":
 		return fmt.Sprintf("L%d", o.L1.BlockNumber)
@@ -58,6 +66,16 @@ func (s *script) opsString() string {
 func apply(n *chain.Node, o sop) error {
 	switch o.Kind {
 	case "S":
+		if o.Fin {
+			c := chain.CloneBlk(o.Blk)
+			if err := n.BC.Finalise(c.Block, c.SU, c.Classes, nil); err != nil {
+				return err
+			}
+			if !c.Block.Hash.Equal(o.Blk.Block.Hash) {
+				return fmt.Errorf("harness: Finalise of a copy of block %d produced hash %s, the builder produced %s", o.Blk.Number(), c.Block.Hash, o.Blk.Block.Hash)
+			}
+			return nil
+		}
 		return n.StoreBlk(o.Blk)
 	case "R":
 		return n.BC.RevertHead()
@@ -75,7 +93,7 @@ func apply(n *chain.Node, o sop) error {
 
 // genScript builds a concrete script. prefixLen blocks (empty ones when long) are
 // part of Chains[*] but are stored before the scripted ops start.
-func genScript(rng *rand.Rand, newState bool, prefixLen, nops int, template bool) (*script, error) {
+func genScript(rng *rand.Rand, newState bool, prefixLen, nops int, template, edgeFin bool) (*script, error) {
 	opts := chain.Opts{EventRich: true, NoNoopZero: lib.Avoid("noop-zero-write"), SystemOneIn: 3}
 	if prefixLen > 0 {
 		opts.Versions = []string{"0.14.0", "0.14.1"}
@@ -177,6 +195,15 @@ func genScript(rng *rand.Rand, newState bool, prefixLen, nops int, template bool
 			o.Kind = "G"
 		default:
 			o.Kind = "U"
+		}
+		if o.Kind == "S" {
+			// a quarter of the stores go through the block-producer path (a function of the block, not
+			// of the random stream)
+			hb := o.Blk.Block.Hash.Bytes()
+			o.Fin = hb[31]%4 == 0
+			if edgeFin && o.Blk.Number()%core.NumBlocksPerFilter == core.NumBlocksPerFilter-1 {
+				o.Fin = true // the block that completes a bloom window, through the block-producer path
+			}
 		}
 		s.Ops = append(s.Ops, o)
 		s.Chains = append(s.Chains, append([]*chain.Blk{}, cur.Blocks...))
@@ -391,7 +418,7 @@ func runCase(r *lib.Run, idx int, long bool) {
 		prefix = int(core.NumBlocksPerFilter) - 1 - rng.IntN(3) // 8189..8191 blocks: ops straddle the window edge
 		nops = 14
 	}
-	s, err := genScript(rng, newState, prefix, nops, !long && idx%5 == 2)
+	s, err := genScript(rng, newState, prefix, nops, !long && idx%5 == 2, long && idx%4 >= 2)
 	if err != nil {
 		r.Violation("generator:"+backend, idx, err.Error(), nil)
 		return
@@ -817,7 +844,7 @@ func TestC05(t *testing.T) {
 	r := lib.Start("C05", "fault_enumeration")
 	n := r.N(32, 800)
 	r.Cases(n, 0, func(idx int) { runCase(r, idx, false) })
-	nl := 2
+	nl := 4 // legacy / new state x window-completing block through Store / through Finalise
 	if !r.Quick() {
 		nl = 12
 	}
